@@ -79,7 +79,7 @@ def gen_spec(prop, rng, tier):
             #  is a different input - see DESIGN.md 12.3 F1 and 12.4 - and everything derived from it,
             #  e.g. a later compare, would inherit that)
             cands += ['W'] * 4 + ['F'] * 1
-        pairs = [(a, b) for a in runst for b in runst if a < b and slots[a]['set'] == slots[b]['set']]
+        pairs = [(a, b) for a in runst for b in runst if a < b and slots[a]['set'] == slots[b]['set'] and not slots[a].get('mixed') and not slots[b].get('mixed')]
         if pairs:
             cands += ['C'] * 3
         cands += ['A'] * 2 + ['CLI'] * 1
@@ -92,8 +92,13 @@ def gen_spec(prop, rng, tier):
                 fl = ['set%da.fa' % ks, 'set%db.fa' % ks]
             else:
                 fl = ['set%d.fa' % ks]
+            if written and rng.random() < 0.25:
+                # several files into one object, one of them an alignment kalign wrote earlier (gapped) and
+                # one plain: the object passes through merge_msa with parts of different status
+                path, ks2, fmt = rng.choice(written)
+                fl = [path] + fl if rng.random() < 0.5 else fl + [path]
             ops.append({'k': 'R', 's': s, 'files': fl})
-            slots[s] = {'set': ks, 'state': 'read'}
+            slots[s] = {'set': ks, 'state': 'read', 'mixed': 1}
         elif k == 'Rw':
             s = rng.choice(empty); path, ks, fmt = rng.choice(written)
             ops.append({'k': 'R', 's': s, 'files': [path]})
